@@ -2,10 +2,13 @@ package props
 
 import (
 	"embed"
+	"encoding/json"
 	"go/scanner"
 	"go/token"
 	"regexp"
 	"sync"
+
+	"gmslverif/fw"
 )
 
 // The rule sources are embedded so that the loader can tell which repository functions the
@@ -50,4 +53,14 @@ func KeepName(name string) bool {
 		}
 	})
 	return keepWords[name]
+}
+
+//go:embed refparams.json
+var refParamsJSON []byte
+
+func init() {
+	m := map[string][][2]string{}
+	if err := json.Unmarshal(refParamsJSON, &m); err == nil {
+		fw.RefParams = m
+	}
 }
